@@ -67,7 +67,7 @@ Inductive ekind :=
 | ENextNotFound         (* "next segment not found or not ready yet" *)
 | ETooLate              (* "playback is too late" *)
 | EHintGone             (* "preload hint disappeared" *)
-| EInvalidTimeScale.    (* only with the proposed repair: "invalid time scale" *)
+| EInvalidTimeScale.    (* since /repo commit f8dc8c2 (rep_tracks): "invalid time scale" *)
 
 Inductive res (A : Type) : Type :=
 | Ok (a : A)
@@ -215,15 +215,17 @@ Fixpoint findTimeScaleOfLeadingTrack (tracks : list init_track) (id : Z) : Z :=
   | t :: r => if it_id t =? id then it_timescale t else findTimeScaleOfLeadingTrack r id
   end.
 
-(* Which of the proposed repairs (findings/C13-*.json) the modelled tree contains. The pinned tree
-   has none. rep_tracks: findings 1 and 2 (unsupported codec, time scale 0); rep_join: finding 3
-   (the stream processor collects the tokens of finished part tracks while it pushes). *)
+(* Which of the repairs (findings/C13-*.json) the modelled tree contains. /repo carries all of them
+   (all_repairs): rep_tracks = findings 1 and 2 (unsupported codec, time scale 0), /repo commit
+   f8dc8c2; rep_join = finding 3 (the stream processor collects the tokens of finished part tracks
+   while it pushes), /repo commit 098dd1f. no_repairs is the tree before those commits, kept as a
+   regression witness. *)
 Record repairs := { rep_tracks : bool; rep_join : bool }.
 Definition no_repairs : repairs := {| rep_tracks := false; rep_join := false |}.
 Definition all_repairs : repairs := {| rep_tracks := true; rep_join := true |}.
 
-(* The proposed repair of findings 1 and 2 (NOT in the pinned tree; [repaired = false] is the pinned
-   tree): before picking the leading track, reject an init with a zero time scale and keep
+(* The repair of findings 1 and 2 (/repo commit f8dc8c2; [repaired = false] is the tree before
+   it): before picking the leading track, reject an init with a zero time scale and keep
    only the tracks codecs.FromFMP4 knows, as the MPEG-TS path does:
        for _, track := range p.init.Tracks {
            if track.TimeScale == 0 { return fmt.Errorf("invalid time scale") }
@@ -967,10 +969,16 @@ Definition stream_head (rp : repairs) (sc : scenario) (isLeading : bool) (r : op
   match nth_error (sc_streams sc) (match r with Some n => n | None => 0%nat end) with
   | None => Err EHttp
   | Some (SF s) =>
-      x <- fmp4_run_head (rep_tracks rp) isLeading (fs_init s) ;;
-      let '(lead, ts, init) := x in
-      Ok (HF {| f_isLeading := isLeading; f_init := init; f_leadingTrackID := lead;
-                f_cst := ts; f_procs := None; f_repJoin := rep_join rp |} (fs_segs s))
+      (* a stream never starts with an empty segment list: playlist.Unmarshal rejects a media playlist
+         without segments ("no segments found"), and so does fillSegmentQueue for a VOD playlist *)
+      match fs_segs s with
+      | [] => Err ENoSegments
+      | _ =>
+          x <- fmp4_run_head (rep_tracks rp) isLeading (fs_init s) ;;
+          let '(lead, ts, init) := x in
+          Ok (HF {| f_isLeading := isLeading; f_init := init; f_leadingTrackID := lead;
+                    f_cst := ts; f_procs := None; f_repJoin := rep_join rp |} (fs_segs s))
+      end
   | Some (ST s) =>
       match tst_segs s with
       | [] => Err ENoSegments
@@ -1046,7 +1054,7 @@ Definition client_run_gen (rp : repairs) (sc : scenario) (elapsed : Z) : outcome
       end
   end.
 
-(* the pinned tree, and the tree with the proposed repair *)
+(* the tree before the repairs (regression witness), and /repo as it is now *)
 Definition client_run : scenario -> Z -> outcome := client_run_gen no_repairs.
 Definition client_run_fixed : scenario -> Z -> outcome := client_run_gen all_repairs.
 
